@@ -148,9 +148,10 @@ def h_index(sx, k, tail, tfdt_mode):
     conds.append(rep.mediaDuration == total)
     conds.append(rep.start_number == facts['seq0'])
     conds.append(rep.start_time == facts['t0'])
-    # segment_duration = start time of the last fragment // (k - 1)
+    # nominal duration = mean duration of all fragments but the last (which may be short),
+    # measured from the first fragment's decode time
     last_start = facts['frags'][-1]['time']
-    conds.append(rep.segment_duration == sx_divmod(last_start, k - 1)[0])
+    conds.append(rep.segment_duration == sx_divmod(last_start - facts['t0'], k - 1)[0])
     sx.prove(sx_and(*conds), 'C06.index',
              detail={'segments': [(s.pos, s.size, s.duration) for s in segs], 'mediaDuration': rep.mediaDuration,
                      'start_number': rep.start_number, 'start_time': rep.start_time,
@@ -348,7 +349,7 @@ def replay(case):
                 total += f['duration']
             last_start = facts['frags'][-1]['time']
             ok = ok and rep.mediaDuration == total and rep.start_number == facts['seq0'] \
-                and rep.start_time == facts['t0'] and rep.segment_duration == last_start // (k - 1)
+                and rep.start_time == facts['t0'] and rep.segment_duration == (last_start - facts['t0']) // (k - 1)
             if not ok:
                 bad.append('C06.index')
             sl = rep.generateSegmentList()
